@@ -80,6 +80,7 @@ package cosmoslane
 //@   requires forall m *vestingtypes.MsgCreateVestingAccount :: vestTo(type(*vestingtypes.MsgCreateVestingAccount), m) == m.ToAddress
 //@   requires forall m *vestingtypes.MsgCreatePeriodicVestingAccount :: vestTo(type(*vestingtypes.MsgCreatePeriodicVestingAccount), m) == m.ToAddress
 //@   requires forall m *vestingtypes.MsgCreatePermanentLockedAccount :: vestTo(type(*vestingtypes.MsgCreatePermanentLockedAccount), m) == m.ToAddress
+//@   requires forall a bytes :: {vauthProof[layer(ctx)][a]} vauthProof[layer(ctx)][a] == kvHas[kvId(layer(ctx), payload(vmd.vak.storeKey))][vauthProofKey(a)]
 //@   modifies everything
 //@   ensures[C07.eth_passes] single(payload(tx)) ==> (hcN[0] == old(hcN[0]) + 1 && hcKind[old(hcN[0])] == 0 && hcCallee[old(hcN[0])] == next && hcCtx[old(hcN[0])] == ctx && hcTxTag[old(hcN[0])] == typeof(tx) && hcTx[old(hcN[0])] == payload(tx) && hcSim[old(hcN[0])] == simulate && newCtx == hcResCtx[old(hcN[0])] && typeof(err) == hcResErrTag[old(hcN[0])] && payload(err) == hcResErr[old(hcN[0])] && hcSawFlagNonce[old(hcN[0])] == old(trFlagNonce[layer(ctx)]) && hcSawFlagPaid[old(hcN[0])] == old(trFlagPaid[layer(ctx)]) && hcSawSeq[old(hcN[0])] == old(acctSeq[layer(ctx)]))
 //@   ensures[C16.cosmos_next_or_reject] !single(payload(tx)) ==> ((hcN[0] == old(hcN[0]) + 1 && hcKind[old(hcN[0])] == 0 && hcCallee[old(hcN[0])] == next && hcCtx[old(hcN[0])] == ctx && hcTxTag[old(hcN[0])] == typeof(tx) && hcTx[old(hcN[0])] == payload(tx) && hcSim[old(hcN[0])] == simulate && newCtx == hcResCtx[old(hcN[0])] && typeof(err) == hcResErrTag[old(hcN[0])] && payload(err) == hcResErr[old(hcN[0])] && hcSawFlagNonce[old(hcN[0])] == old(trFlagNonce[layer(ctx)]) && hcSawFlagPaid[old(hcN[0])] == old(trFlagPaid[layer(ctx)]) && hcSawSeq[old(hcN[0])] == old(acctSeq[layer(ctx)])) || (hcN[0] == old(hcN[0]) && err != nil && newCtx == ctx))
